@@ -465,3 +465,46 @@ def tls_iff_https(chk, P, key):
             raise mir.AnchorMissing("a tls_handshake call in emit_otlp::client::http")
         return True, "", ev
     chk.ob(key, "the TLS handshake is performed exactly for https endpoints", f)
+
+
+# ---- C12: the response body is read to its end (the gRPC status lives in the trailers) ----------------------------------------------------------
+
+def response_read_to_end(chk, P, key):
+    """HttpResponse::stream_payload polls frames until the body is exhausted: the per-frame future answers Ok(true) (go on) for every frame it was
+    given and Ok(false) only at the end of the stream (`None`), and the driver loops while the answer is true.  An answer of `false` after a frame stops
+    before the trailers, where the gRPC status is: a rejected request would count as delivered."""
+    def f():
+        bs = [b for k, b in P.bodies.items() if "HttpResponse::stream_payload" in k and k.endswith("::poll")]
+        if not bs:
+            raise mir.AnchorMissing("the frame future of HttpResponse::stream_payload")
+        b = bs[0]
+        n_frame = n_end = 0
+        for rb in b.return_blocks():
+            for path in b.acyclic_paths(0, rb, limit=4000):
+                ps = mir.PathSummary(b, path)
+                r = ps.ret()
+                ds = [tuple(str(x) for x in v) for _, o, v in ps.decisions() if "poll_frame" in o_str(o) and o[0] == "discr"]
+                if not ds or ds[0] != ("0",):      # Pending
+                    continue
+                inner = r[2][0] if r[0] == "agg" and r[2] else None
+                val = mir.o_const_value(inner[2][0]) if inner and inner[0] == "agg" and inner[1].get("variant") == "Ok" and inner[2] else None
+                if len(ds) >= 2 and ds[1] == ("0",):      # Ready(None): end of stream
+                    n_end += 1
+                    if val is not False:
+                        return False, "at the end of the response body the frame future answers %s, not Ok(false): the driver would poll a finished body again" % o_str(r)[:80], [], b.span
+                elif len(ds) >= 3 and ds[2] == ("0",):    # Ready(Some(Ok(frame)))
+                    n_frame += 1
+                    if val is not True:
+                        return False, ("after a frame of the response body the frame future answers %s, not Ok(true): reading stops before the trailers, so a "
+                                       "non-zero grpc-status is never seen and the rejected request counts as delivered" % o_str(r)[:80]), [], b.span
+        if n_frame < 1 or n_end < 1:
+            raise mir.AnchorMissing("the frame / end-of-stream answers of the frame future (found %d / %d)" % (n_frame, n_end))
+        # the driver: a loop around the awaited frame future that is left on the false answer
+        ds_ = [d for k, d in P.bodies.items() if k.endswith("HttpResponse::stream_payload::{closure#0}")]
+        if ds_:
+            d = ds_[0]
+            agg = [bb for bb, j, st in d.statements(normal_only=True) if st["k"] == "assign" and st["rv"]["k"] == "agg" and "BufNext" in (st["rv"].get("adt") or "")]
+            if not agg or not all(d.in_cycle(bb) for bb in agg):
+                return False, "the frame future is not awaited in a loop: only the first frame of the response would be read", [], d.span
+        return True, "", [b.span]
+    chk.ob(key, "the response body is read frame by frame to its end, trailers included", f)
